@@ -71,6 +71,11 @@ def provScheme (cfg : Cfg) : Scheme := if cfg.provTls then .https else .http
 /-- every soap client the provider creates (notifications, SubscriptionEnd) gets `client_context` iff a container exists -/
 def provClientTls (cfg : Cfg) : Bool := cfg.provTls
 
+/-- transport of a notification / SubscriptionEnd to a subscriber (synchronous and asynchronous subscription manager):
+    the provider's TLS setting decides; the scheme of the NotifyTo / EndTo address the subscriber gave is NOT consulted
+    (only netloc and path of it are used) -/
+def deliveryTls (cfg : Cfg) (_subscriberScheme : Scheme) (_asyncManager : Bool) : Bool := cfg.provTls
+
 /-- the protocol the provider's HTTP server really speaks -/
 def provServerTls (cfg : Cfg) : Bool :=
   match cfg.provServer with
